@@ -174,6 +174,7 @@ package kvql
 //
 //@ func (p *FinalOrderPlan) Batch(ctx *ExecuteCtx) (ret [][]Column, err error)
 //@   props C07 C13
+//@   ensures[C07] ownrows: err == nil ==> isnil(ret) || fresh(ret)
 //@   ensures[C13] norows: err != nil ==> len(ret) == 0
 //@   requires ordInv(p) && !failed && PlanBatchSize >= 1
 //@   assigns p.total, p.pos, hsize(p.sorted), fcur(p.ChildPlan), nops, failed, lastErr, ctx.Hit, mapof(ctx.FieldCaches), mapof(ctx.FieldChunkKeyCaches), mapof(ctx.FieldChunkCaches)
